@@ -64,4 +64,20 @@ def admits (op : S.Op) (v : Ver) (wild : Bool) (raw : Str) (c : Ver) : Bool :=
   | .lt => isLT (cmp c v) && !(!v.isPre && c.isPre && sameRelease c v)
   | .gt => isGT (cmp c v) && !(!v.isPost && c.isPost && sameRelease c v) && !localVersionOf c v
 
+/-- The reading of a parsed clause `(operator, text)`: the version it names and whether it is a prefix (`.*`)
+clause — defined when the text has the form the operator's grammar gives it: it reads as a version; `.*` only
+after `==`/`!=` and on a bare release; a local label only after `==`/`!=`; at least two release components
+after `~=`.  For `===` any text is admitted (the version is irrelevant). -/
+def readClause (sp : S.Spec) : Option (Ver × Bool) :=
+  if sp.op == .arbitrary then some (⟨0, [], none, none, none, none⟩, false) else
+  let wild := (sp.op == .eq || sp.op == .ne) && endsWith sp.ver [46, 42]
+  let vtext := if wild then sp.ver.take (sp.ver.length - 2) else sp.ver
+  match scan vtext with
+  | none => none
+  | some v =>
+    let bare := v.pre.isNone && v.post.isNone && v.dev.isNone && v.loc.isNone
+    if (!wild || bare) && (wild || !endsWith sp.ver [46, 42]) &&
+       (v.loc.isNone || sp.op == .eq || sp.op == .ne) &&
+       (sp.op != .compatible || decide (2 ≤ v.release.length)) then some (v, wild) else none
+
 end Pep440
